@@ -393,7 +393,7 @@ def run_scale_trunc(n, r):
             except Exception:
                 r.extra["scale-term-without-encoding"] += 1
                 continue
-        full = rt.parse(d, enc, {})
+        full = rt.parse(d, enc, {}, timeout=60)
         r.states += 1
         if full[0] != "ok":
             r.violation("C06/scale/canonical-encoding-rejected/" + tsig, {"part": "scale", "term": t, "size": n}, "%s: its %d-byte encoding is rejected: %r" % (T.show(t), len(enc), full[:2]))
@@ -401,7 +401,7 @@ def run_scale_trunc(n, r):
         cuts = sorted({0, 1, len(enc) // 2, len(enc) - 2, len(enc) - 1, max(0, len(enc) - 8192), max(0, len(enc) - 8193), 5, len(enc) - 4097} & set(range(len(enc))))
         for cut in cuts:
             r.states += 1
-            p = rt.parse(d, enc[:cut], {})
+            p = rt.parse(d, enc[:cut], {}, timeout=60)
             r.case(nontrivial=True, outcome=p[0] if p[0] != "cerr" else p[1], validated=1)
             if not (p[0] == "cerr" and p[1] == "StreamError"):
                 r.violation("C06/truncation-%s/%s" % ("accepted" if p[0] == "ok" else p[1] if len(p) > 1 else p[0], tsig), {"part": "scale", "term": t, "size": n, "cut": cut},
